@@ -1312,6 +1312,7 @@ def run_engine_b(spec):
     sp = {"seed": spec["seed"], "kind": spec["kind"], "backend": spec["backend"]}
     p = c01.expand(sp)
     rng = _r.Random(spec["seed"] + 17)
+    p["max_failures"] = rng.choice([1, 3, 100])
     plan = {f"{rng.randint(0, 8)}:{rng.choice([0, 0, 1, 1])}": rng.randint(0, 3) for _ in range(rng.randint(1, 3))}
     if spec["backend"] == "proc":
         p["delete_checkpoints"] = False
@@ -1323,7 +1324,6 @@ def run_engine_b(spec):
         p["fail"] = plan
         p["sjwd"] = True
         r = simrun.SimRun(p, spec["seed"])
-    p["max_failures"] = 100
     r.run()
     if spec["backend"] == "proc":
         r.cleanup()
